@@ -70,6 +70,11 @@ def run(ctx):
             w2 = list(words); w2[rnd.randrange(5, len(w2))] = rnd.choice([0, 0xffffffff, 0x10000]); variants.append(instgen.to_bytes(w2))
             variants.append(instgen.to_bytes(words)[:rnd.randrange(0, 4 * len(words))])
         variants.append(b"")
+        # malformed headers, through every entry point: byte-swapped magic (with and without a body), wrong magic, 19 and 20 bytes
+        full = instgen.to_bytes(words)
+        swapped = bytes(reversed(full[:4])) + full[4:]
+        if mi < 3:
+            variants += [swapped, swapped[:20], swapped[:24], b"\x00" * 4 + full[4:], full[:19], full[:20], swapped[:19]]
         for data in variants:
             hx = data.hex() or "-"
             n = len(insts) + 3
